@@ -331,6 +331,13 @@ func (x *c15ctx) runCase(c *c15Case) *c15Obs {
 		o.Cwd, inArg, outArg = pkgDir, inputAbs, filepath.Join(pkgDir, outName)
 	case "root":
 		o.Cwd, inArg, outArg = root, c.In.PkgRel+"/"+c.In.Input, c.In.PkgRel+"/"+outName
+	case "sub":
+		// started from a directory other than the setup file's, with relative paths that climb out of it
+		sub := filepath.Join(pkgDir, "c15sub")
+		if err := os.MkdirAll(sub, 0o755); err != nil {
+			return fail("sub dir: %v", err)
+		}
+		o.Cwd, inArg, outArg = sub, "../"+c.In.Input, "../"+outName
 	default:
 		o.Cwd, inArg, outArg = pkgDir, c.In.Input, outName
 	}
@@ -919,7 +926,7 @@ func RunC15(e *core.Env) int {
 					if rnd.Intn(4) == 0 {
 						c.Sentinel = "garbage"
 					}
-					c.Spelling = []string{"rel", "rel", "abs", "root"}[rnd.Intn(4)]
+					c.Spelling = []string{"rel", "rel", "abs", "root", "sub"}[rnd.Intn(5)]
 					if st == "unwritable" {
 						c.Mech = []string{"uid", "uid+present", "chattr-dir"}[(bits+r+rnd.Intn(3))%3]
 					}
